@@ -110,6 +110,12 @@ class Gen:
                 self.lid += 1
                 myid = "L%d" % self.lid
                 body = self.block(vs, routines, depth + 1, r.randint(1, 3), inslot)
+                if self.profile == "loops" and depth < 2 and r.random() < 0.35 and body[0]["k"] != "loop":
+                    # a loop directly inside a loop (same line in dense layouts): inner bound = a small constant variable
+                    self.lid += 1
+                    inner = {"k": "loop", "id": "L%d" % self.lid, "x": r.choice(vs), "labels": [],
+                             "body": self.block(vs, routines, depth + 2, r.randint(1, 2), inslot)}
+                    body.insert(0, inner)
                 x = r.choice(vs)
                 if r.random() < 0.3:    # assign to the bound inside the body: must not change the iteration count
                     body.insert(r.randrange(len(body) + 1), {"k": "assign", "x": x, "v": self.simple(vs), "labels": []})
